@@ -8,7 +8,7 @@ use stun_types::message::Message;
 
 use crate::common::*;
 use crate::ensure;
-use crate::gen::{self, MsgSpec};
+use crate::gen::{self, MsgSpec, WireAttr, WireSpec};
 use crate::refstun::{self, RefParse, T_FP};
 
 #[derive(Debug, Clone, Serialize, Deserialize)]
@@ -29,6 +29,12 @@ struct Counters {
 }
 
 fn judge(orig_len: usize, mutant: &[u8], what: &dyn Fn() -> String, cn: &mut Counters, st: &mut Stats, touched_len_field: bool) -> TestResult {
+    judge_with(orig_len, mutant, what, cn, st, touched_len_field, true)
+}
+
+/// `len_causes`: a body that does not match the length field counts as a cause C09 names (true for
+/// mutants of a fingerprinted message; for generated buffers only the CRC relation itself counts)
+fn judge_with(orig_len: usize, mutant: &[u8], what: &dyn Fn() -> String, cn: &mut Counters, st: &mut Stats, touched_len_field: bool, len_causes: bool) -> TestResult {
     cn.mutants += 1;
     let lib_ok = guard(|| Message::from_bytes(mutant).is_ok())
         .map_err(|p| Fail::new("c09-panic", format!("parser panicked on mutant ({}): {}", what(), p)))?;
@@ -52,10 +58,8 @@ fn judge(orig_len: usize, mutant: &[u8], what: &dyn Fn() -> String, cn: &mut Cou
             // C09 demands rejection where the CRC relation (or the length field it covers) is
             // what is violated; mutants that are malformed for other reasons only are C02's business
             let crc_cause = causes.iter().any(|c| {
-                matches!(
-                    c,
-                    refstun::Cause::FingerprintMismatch | refstun::Cause::BadFingerprintLen | refstun::Cause::Excess { .. } | refstun::Cause::ShortBody { .. }
-                )
+                matches!(c, refstun::Cause::FingerprintMismatch | refstun::Cause::BadFingerprintLen)
+                    || (len_causes && matches!(c, refstun::Cause::Excess { .. } | refstun::Cause::ShortBody { .. }))
             });
             if !crc_cause {
                 cn.other_cause += 1;
@@ -277,8 +281,75 @@ fn test(c: &Case, st: &mut Stats) -> TestResult {
     Ok(())
 }
 
+/// buffers assembled on the wire (not builder output) that carry a FINGERPRINT-typed attribute
+#[derive(Debug, Clone, Serialize, Deserialize)]
+pub struct WireCase {
+    pub w: WireSpec,
+}
+
+fn wire_test(c: &WireCase, st: &mut Stats) -> TestResult {
+    st.eval();
+    let bytes = c.w.bytes();
+    if bytes.len() < 20 {
+        return Ok(());
+    }
+    let mut cn = Counters {
+        mutants: 0,
+        fp_reached: 0,
+        len_field: 0,
+        dissolved: 0,
+        dissolved_refused: 0,
+        other_cause: 0,
+    };
+    judge_with(bytes.len(), &bytes, &|| "a buffer assembled on the wire, not a mutant".to_string(), &mut cn, st, false, false)?;
+    st.class_n("wire buffers with a FINGERPRINT-typed attribute reached", cn.fp_reached);
+    st.class_n("wire buffers accepted by the reference", cn.dissolved);
+    st.class_n("wire buffers malformed for reasons other than the CRC relation (not asserted)", cn.other_cause);
+    for a in &c.w.attrs {
+        if let WireAttr::FpLong { len, xor } = a {
+            st.class(if *xor == 0 { "FINGERPRINT-typed attribute of the wrong length with the CRC of that layout" } else { "FINGERPRINT-typed attribute of the wrong length" });
+            let _ = len;
+        }
+    }
+    Ok(())
+}
+
+fn is_fp_typed(a: &WireAttr) -> bool {
+    match a {
+        WireAttr::Fp { .. } | WireAttr::FpAbs { .. } | WireAttr::FpLong { .. } => true,
+        WireAttr::Plain { ty, .. } => *ty == T_FP,
+        _ => false,
+    }
+}
+
 pub fn run(ctx: &Ctx) -> EvidenceMeta {
     let deep = !ctx.quick();
+    ctx.proptest(
+        "wire-buffers-with-fingerprint",
+        ctx.n(20_000, 600_000),
+        || {
+            (gen::wire_spec_mixed(6), any::<u64>()).prop_map(|(mut w, s)| {
+                if !w.attrs.iter().any(is_fp_typed) {
+                    let a = match s % 8 {
+                        0..=2 => WireAttr::Fp { xor: 0 },
+                        3 => WireAttr::Fp { xor: 1 << ((s >> 8) % 32) },
+                        4 => WireAttr::FpAbs { value: gen::FP_MAGIC[(s >> 8) as usize % gen::FP_MAGIC.len()] },
+                        5 | 6 => WireAttr::FpLong { len: [8u8, 5, 3, 12, 0, 7, 6, 1][(s >> 8) as usize % 8], xor: 0 },
+                        _ => WireAttr::FpLong { len: ((s >> 8) % 13) as u8, xor: (s >> 16) as u32 },
+                    };
+                    // mostly last, sometimes followed by what was generated
+                    if (s >> 4) % 4 == 0 && !w.attrs.is_empty() {
+                        let at = (s >> 6) as usize % w.attrs.len();
+                        w.attrs.insert(at, a);
+                    } else {
+                        w.attrs.push(a);
+                    }
+                }
+                WireCase { w }
+            })
+        },
+        wire_test,
+    );
     ctx.proptest(
         "fingerprint-mutants",
         ctx.n(300, 12_000),
@@ -317,7 +388,10 @@ pub fn run(ctx: &Ctx) -> EvidenceMeta {
                single-bit flips (messages <= 512 bytes; header, tail and 2048 sampled bits otherwise), bursts of 2..=32 bits (first and last \
                bit set, sampled interiors; thorough: every start bit x every length x 8 patterns for messages <= 256 bytes), all 255 \
                substitutions of every byte (messages <= 64 bytes, sampled otherwise) and every length-field value that ends the body on an \
-               attribute boundary; each mutant is judged by the independent decoder: if it rejects, the library must reject. Non-trivial = \
+               attribute boundary; each mutant is judged by the independent decoder: if it rejects, the library must reject. A third check \
+               judges buffers assembled on the wire (arbitrary attributes, a FINGERPRINT-typed attribute with the right, a wrong or a magic \
+               value, or of a wrong length with the CRC of exactly that layout, last or followed by others): where the reference finds the CRC \
+               relation violated the library must refuse. Non-trivial = \
                mutant in which a FINGERPRINT attribute is still reached by the TLV walk, or a length-field mutant; distinct by mutant digest."
             .into(),
         assumptions: vec![
@@ -329,7 +403,11 @@ pub fn run(ctx: &Ctx) -> EvidenceMeta {
     }
 }
 
-pub fn replay(_check: &str, case: &Value, st: &mut Stats) -> Result<TestResult, String> {
+pub fn replay(check: &str, case: &Value, st: &mut Stats) -> Result<TestResult, String> {
+    if check == "wire-buffers-with-fingerprint" {
+        let c: WireCase = parse_case(case)?;
+        return Ok(wire_test(&c, st));
+    }
     let c: Case = parse_case(case)?;
     Ok(test(&c, st))
 }
